@@ -48,6 +48,9 @@ type config struct {
 	// NoNNP: the recorded load does not request no_new_privs (the caller decides whether it runs privileged: as uid nobody
 	// the kernel refuses such a load, and nil is only admissible with the statement's coverage)
 	NoNNP bool `json:"no_nnp"`
+	// PolicyDefault: the default action of the recorded policy ("" / "allow", or "log": allowed and logged - to every probe the
+	// same as allow). What the flags do must not depend on what the policy says.
+	PolicyDefault string `json:"policy_default"`
 }
 
 type probeRec struct {
@@ -212,6 +215,10 @@ func main() {
 		}
 		pol := seccomp.Policy{DefaultAction: seccomp.ActionAllow,
 			Syscalls: []seccomp.SyscallGroup{{Action: seccomp.ActionErrno, Names: []string{probe.Syscalls[0].Name}}}}
+		if cfg.PolicyDefault == "log" {
+			pol.DefaultAction = seccomp.ActionLog
+			pol.Syscalls = append(pol.Syscalls, seccomp.SyscallGroup{Action: seccomp.ActionAllow, Names: []string{"read", "write"}})
+		}
 		if cfg.Preload && cfg.PreloadOther {
 			other := seccomp.Policy{DefaultAction: seccomp.ActionAllow,
 				Syscalls: []seccomp.SyscallGroup{{Action: seccomp.ActionErrno, Names: []string{probe.Syscalls[2].Name}}}}
